@@ -75,7 +75,11 @@ inline int counter(const char* name) {
     } while (0)
 
 inline void candidate(
-    const char* kind, const std::string& reg, const std::string& detail) {
+    const char* kind, const std::string& reg, const std::string& detail_in) {
+    std::string detail = detail_in;
+    for (auto& ch : detail)
+        if (ch == '\n' || ch == '\t' || ch == '\r')
+            ch = ' ';
     long n = ++g_sh->ncand_total;
     if (n <= g_opts.max_cands) {
         fprintf(
